@@ -58,7 +58,7 @@ def larity(a):
 
 def larg(a):
     k, _, e = a.partition("!")
-    if k not in ("str", "sds", "int", "u64", "flt", "usz", "kw", "u32"):
+    if k not in ("str", "sds", "int", "u64", "flt", "usz", "kw", "u32", "pos"):
         raise ValueError(a)
     return f"⟨.k .{k}, {'some ' + lhex(e) if e else 'none'}⟩"
 
